@@ -1,13 +1,13 @@
 /-
 The whole server on one datagram — `HandleMsg4/6` composed with the models of the configured
-built-in plugins (Model/System.lean). Property theorems only (proofs in Proofs/System.lean
-and Proofs/System6.lean).
+built-in plugins (Model/System.lean). Property theorems only (proofs in Proofs/System.lean,
+Proofs/System6.lean and Proofs/System7.lean).
 
 What is new against C11/C12/C15 in Props/: no hypothesis about the handlers is left. For every
 chain of option plugins, `server_id` and `file`, in any order and with any configuration the
 models accept, the reply that is sent satisfies the per-datagram properties.
 -/
-import CoreDhcp.Proofs.System6
+import CoreDhcp.Proofs.System7
 namespace CoreDhcp
 open Sys
 
@@ -247,5 +247,121 @@ example : ∃ a s' rs cs' resp, A6.new ⟨⟨0x20010db800000000#64, 0#64⟩, 60,
     (resp.opts.filter (fun o => o.1 == 25)).map (fun o => (decIAPD o.2).map (fun p => p.pfxs.map (·.2))) =
       [some [3600], some [3600]] :=
   ⟨_, _, _, _, _, rfl, rfl, rfl, rfl, rfl⟩
+
+/-! ## `file` behind `range`, `server_id` first, `range` and `lease_time` -/
+
+/-- C10 end to end with `range` before `file`: before `file` only plugins that never end the chain and `range` (which
+hands its response on or drops the request, but never ends the chain with a response): if anything is sent to a
+listed client, it carries the listed address, not the one `range` chose. -/
+theorem SYS_file_address4_lease (bound : Nat) (oob : Option Nat) (pre post : List Elem4) (t : FTable) (req : Sys.Req4)
+    (a : BitVec 32) (h : t.get req.chaddr = some (.v4 a)) (hpre : pre.all (fun e => neverStops4 e || isLease e) = true)
+    (resp : Sys.Resp4) (peer : BitVec 32) (port : Nat) (ifidx : Option Nat) (l2 : Bool)
+    (hs : serve4 bound oob (pre ++ .file t :: post) (some req) = .send resp peer port ifidx l2) :
+    resp.yiaddr = be4 a :=
+  sys_file_address4_lease bound oob pre post t req a h hpre resp peer port ifidx l2 hs
+
+/-- non-vacuity of `SYS_file_address4_lease`: a DISCOVER through `range` (which answers 10.0.10.10 for 60 s) then `file`
+listing the client with 10.9.0.1: the reply's yiaddr is 10.9.0.1 (and option 51 is still the one of `range`) -/
+example :
+    let req : Sys.Req4 := ⟨1, 7, 1, [2,0,0,0,0,1], 0, [0,0,0,0], [0,0,0,0], [0,0,0,0], [(53, [1])]⟩
+    let t : FTable := [([2,0,0,0,0,1], .v4 0x0a090001#32)]
+    let pre : List Elem4 := [.lease (some (0x0a000a0a#32, 60))]
+    t.get req.chaddr = some (.v4 0x0a090001#32) ∧ pre.all (fun e => neverStops4 e || isLease e) = true ∧
+    ∃ r, serve4 3 none (pre ++ .file t :: []) (some req) = .send r 0x0a090001#32 68 (some 3) true ∧
+      r.yiaddr = [10, 9, 0, 1] ∧ r.yiaddr = be4 0x0a090001#32 ∧ Plug.lookup 51 r.opts = some [0, 0, 0, 60] := by
+  refine ⟨by decide, rfl, _, rfl, rfl, by decide, rfl⟩
+
+/-- C14 end to end (DHCPv4, `server_id` first in the chain and nowhere else): every reply that is sent carries this
+server's address in option 54 and in siaddr — no other element writes either. -/
+theorem SYS_C14_stamped4 (bound : Nat) (oob : Option Nat) (c : Plug.serverid4.Cfg) (rest : List Elem4) (req : Sys.Req4)
+    (hrest : rest.all (fun e => !isServerId4 e) = true)
+    (resp : Sys.Resp4) (peer : BitVec 32) (port : Nat) (ifidx : Option Nat) (l2 : Bool)
+    (hs : serve4 bound oob (.plug (.serverid c) :: rest) (some req) = .send resp peer port ifidx l2) :
+    Plug.lookup 54 resp.opts = some c ∧ resp.siaddr = c :=
+  sys_C14_stamped4 bound oob c rest req hrest resp peer port ifidx l2 hs
+
+/-- non-vacuity of `SYS_C14_stamped4`: a REQUEST naming this server, through `server_id`, `range`, `dns`, `nbp`: the ACK
+carries 10.0.0.1 in option 54 and in siaddr. `hrest` is needed: a second `server_id` (another address, which the
+request does not name either way) after the first overwrites both. -/
+example :
+    let req : Sys.Req4 := ⟨1, 7, 1, [2,0,0,0,0,1], 0, [0,0,0,0], [0,0,0,0], [0,0,0,0], [(53, [3]), (54, [10,0,0,1])]⟩
+    let rest : List Elem4 := [.lease (some (0x0a000a0a#32, 60)), .plug (.dns [[8,8,8,8]]), .plug (.nbp ⟨none, [98]⟩)]
+    rest.all (fun e => !isServerId4 e) = true ∧
+    (∃ r, serve4 3 none (.plug (.serverid [10,0,0,1]) :: rest) (some req) = .send r 0x0a000a0a#32 68 (some 3) true ∧
+      Plug.lookup 54 r.opts = some [10,0,0,1] ∧ r.siaddr = [10,0,0,1] ∧ Sys.mtOf r.opts = 5) ∧
+    (let req0 : Sys.Req4 := ⟨1, 7, 1, [2,0,0,0,0,1], 0, [0,0,0,0], [0,0,0,0], [0,0,0,0], [(53, [1])]⟩
+     ∃ r peer port ifidx l2,
+      serve4 3 none (.plug (.serverid [10,0,0,1]) :: [.plug (.serverid [10,0,0,2])]) (some req0) = .send r peer port ifidx l2 ∧
+      Plug.lookup 54 r.opts = some [10,0,0,2] ∧ r.siaddr = [10,0,0,2]) :=
+  ⟨rfl, ⟨_, rfl, rfl, rfl, rfl⟩, ⟨_, _, _, _, _, rfl, rfl, rfl⟩⟩
+
+/-- C14 end to end (DHCPv6, `server_id` first in the chain and nowhere else): every reply that is sent carries exactly
+one Server Identifier option, this server's DUID. -/
+theorem SYS_C14_stamped6 (bound : Nat) (oob : Option Nat) (src : Addr) (c : Plug.serverid6.Cfg) (rest : List Elem6)
+    (hrest : rest.all (fun e => match e with | .plug (.serverid _) => false | _ => true) = true)
+    (d : Sys.Pkt6) (layers : List Layer6) (resp : Sys.Resp6) (ifidx : Option Nat)
+    (hs : serve6 bound oob src (.plug (.serverid c) :: rest) (some d) = .send layers resp ifidx) :
+    resp.opts.filter (fun o => o.1 == 2) = [(2, c)] :=
+  sys_C14_stamped6 bound oob src c rest hrest d layers resp ifidx hs
+
+/-- non-vacuity of `SYS_C14_stamped6`: a SOLICIT asking for the DNS servers through `server_id`, `dns`, `prefix`, `file`;
+and a REQUEST naming this server (its Server Identifier is checked, the reply carries it once) -/
+example :
+    let duid : Plug.Bytes := [0, 3, 0, 1, 2, 0, 0, 0, 0, 9]
+    let m : Sys.Msg6 := ⟨1, 7, [(1, [0, 3, 0, 1, 2, 0, 0, 0, 0, 1]), (6, [0, 23])]⟩
+    let m3 : Sys.Msg6 := ⟨3, 8, [(1, [0, 3, 0, 1, 2, 0, 0, 0, 0, 1]), (2, duid)]⟩
+    let rest : List Elem6 := [.plug (.dns [[32, 1, 13, 184, 0, 0, 0, 0, 0, 0, 0, 0, 0, 0, 0, 83]]), .pd [⟨[0, 0, 0, 1], []⟩], .file []]
+    rest.all (fun e => match e with | .plug (.serverid _) => false | _ => true) = true ∧
+    (∃ resp, serve6 0 none ⟨0x20010db800000000#64, 1#64⟩ (.plug (.serverid duid) :: rest) (some ⟨[], some m, none⟩) = .send [] resp none ∧
+      resp.opts.filter (fun o => o.1 == 2) = [(2, duid)] ∧ resp.opts.map (·.1) = [1, 2, 23, 25]) ∧
+    (∃ resp, serve6 0 none ⟨0x20010db800000000#64, 1#64⟩ (.plug (.serverid duid) :: rest) (some ⟨[], some m3, none⟩) = .send [] resp none ∧
+      resp.opts.filter (fun o => o.1 == 2) = [(2, duid)] ∧ resp.mt = 7) :=
+  ⟨rfl, ⟨_, rfl, rfl, rfl⟩, ⟨_, rfl, rfl, rfl⟩⟩
+
+/-- C02 end to end: `range` in the chain, reached (only plugins that never end the chain before it), once: every
+reply that is sent carries the lease time of `range` in option 51, whatever `lease_time` plugin sits before it (its
+value is overwritten) or after it (it keeps an option 51 that is there). -/
+theorem SYS_C02_lease4 (bound : Nat) (oob : Option Nat) (pre post : List Elem4) (ip : BitVec 32) (o51 : Nat) (req : Sys.Req4)
+    (hpre : pre.all neverStops4 = true)
+    (hpost : post.all (fun e => !isLease e) = true)
+    (resp : Sys.Resp4) (peer : BitVec 32) (port : Nat) (ifidx : Option Nat) (l2 : Bool)
+    (hs : serve4 bound oob (pre ++ .lease (some (ip, o51)) :: post) (some req) = .send resp peer port ifidx l2) :
+    Plug.lookup 51 resp.opts = some (Plug.be 4 o51) :=
+  sys_C02_lease4 bound oob pre post ip o51 req hpre hpost resp peer port ifidx l2 hs
+
+/-- … and when no `file` comes after `range` either, the address of the reply is the one `range` chose. -/
+theorem SYS_C02_addr4 (bound : Nat) (oob : Option Nat) (pre post : List Elem4) (ip : BitVec 32) (o51 : Nat) (req : Sys.Req4)
+    (hpre : pre.all neverStops4 = true)
+    (hpost : post.all (fun e => !isLease e) = true)
+    (hfile : post.all (fun e => match e with | .file _ => false | _ => true) = true)
+    (resp : Sys.Resp4) (peer : BitVec 32) (port : Nat) (ifidx : Option Nat) (l2 : Bool)
+    (hs : serve4 bound oob (pre ++ .lease (some (ip, o51)) :: post) (some req) = .send resp peer port ifidx l2) :
+    resp.yiaddr = be4 ip :=
+  sys_C02_addr4 bound oob pre post ip o51 req hpre hpost hfile resp peer port ifidx l2 hs
+
+/-- non-vacuity of `SYS_C02_lease4` and `SYS_C02_addr4`: `lease_time 3600 s` before `range` (10.0.10.10 for 60 s) and
+`lease_time 7200 s` after it: the reply has option 51 = 60 s and yiaddr 10.0.10.10. Without `range` the same
+`lease_time 3600 s` does answer 3600 s (option 51 = 0x00000e10), so the first `lease_time` was overwritten. -/
+example :
+    let req : Sys.Req4 := ⟨1, 7, 1, [2,0,0,0,0,1], 0, [0,0,0,0], [0,0,0,0], [0,0,0,0], [(53, [1])]⟩
+    let pre : List Elem4 := [.plug (.leasetime 3600000000000)]
+    let post : List Elem4 := [.plug (.leasetime 7200000000000), .plug (.router [[10,0,0,254]])]
+    pre.all neverStops4 = true ∧ post.all (fun e => !isLease e) = true ∧
+    post.all (fun e => match e with | .file _ => false | _ => true) = true ∧
+    (∃ r, serve4 3 none (pre ++ .lease (some (0x0a000a0a#32, 60)) :: post) (some req) = .send r 0x0a000a0a#32 68 (some 3) true ∧
+      Plug.lookup 51 r.opts = some [0, 0, 0, 60] ∧ Plug.be 4 60 = [0, 0, 0, 60] ∧ r.yiaddr = [10, 0, 10, 10] ∧
+      be4 0x0a000a0a#32 = [10, 0, 10, 10] ∧ Plug.lookup 3 r.opts = some [10, 0, 0, 254]) ∧
+    (∃ r peer port ifidx l2, serve4 3 none (pre ++ post) (some req) = .send r peer port ifidx l2 ∧
+      Plug.lookup 51 r.opts = some [0, 0, 14, 16]) := by
+  refine ⟨rfl, rfl, rfl, ⟨_, rfl, rfl, rfl, rfl, by decide, rfl⟩, ⟨_, _, _, _, _, rfl, rfl⟩⟩
+
+/-- `hfile` of `SYS_C02_addr4` is needed: `file` after `range` replaces the address for a listed client (this is
+`SYS_file_address4_lease`) -/
+example :
+    let req : Sys.Req4 := ⟨1, 7, 1, [2,0,0,0,0,1], 0, [0,0,0,0], [0,0,0,0], [0,0,0,0], [(53, [1])]⟩
+    ∃ r peer port ifidx l2,
+      serve4 3 none ([] ++ .lease (some (0x0a000a0a#32, 60)) :: [.file [([2,0,0,0,0,1], .v4 0x0a090001#32)]]) (some req) =
+        .send r peer port ifidx l2 ∧ r.yiaddr = [10, 9, 0, 1] ∧ r.yiaddr ≠ be4 0x0a000a0a#32 :=
+  ⟨_, _, _, _, _, rfl, rfl, by decide⟩
 
 end CoreDhcp
